@@ -255,7 +255,14 @@ pub fn scan(run: &mut Run, rng: &mut Rng, n: usize) {
                 let mut bytes = join_lines(&lines);
                 if rng.chance(1, 10) { bytes.extend_from_slice(b"\xff\xfe;1;2;3;4;\nlater;1;2;3;4;\n"); }
                 progress(&gq.text);
-                run_formats(run, &sch.defs, &gq.text, &[bytes]);
+                // one case in three: the JOINED table has a NOT NULL column (a joined-file line on which it is NULL is no row —
+                // and must not crash the load) or an array column
+                let defs = match rng.below(6) {
+                    0 => sch.defs.replace("row[3] => y TEXT);", "row[3] => y TEXT NOT NULL);"),
+                    1 => sch.defs.replace("row[3] => y TEXT);", "row[3] => y TEXT, row[2], row[2] => ja INT[] NOT NULL);"),
+                    _ => sch.defs.clone(),
+                };
+                run_formats(run, &defs, &gq.text, &[bytes]);
                 let _ = std::fs::remove_file(jpath);
             }
         }
